@@ -227,6 +227,8 @@ pub fn install_panic_hook() {
 }
 
 /// Runs `f`, turning a panic into `Err(message at file:line)`
+pub const UNANTICIPATED_PANIC: &str = "library call returns (no panic in a call that no clause expects to fail)";
+
 pub fn guarded<T>(f: impl FnOnce() -> T) -> Result<T, String> {
     catch_unwind(AssertUnwindSafe(f)).map_err(|_| LAST_PANIC.with(|p| p.borrow().clone()))
 }
@@ -298,8 +300,16 @@ where
                 let mut out = Vec::new();
                 for i in c * chunk..((c + 1) * chunk).min(n) {
                     if let Err(msg) = guarded(|| f(i, &mut l, &mut out)) {
-                        l.machinery
-                            .push(format!("harness panic on item {}: {}", i, msg));
+                        // a panic raised inside the harness's own sources is a machinery error; one raised in
+                        // the library (or below it) in a call no clause anticipated to fail is a violation of
+                        // whatever that call was supposed to deliver
+                        let loc = msg.rsplit(" at ").next().unwrap_or("").to_string();
+                        if loc.starts_with("src/") || loc.contains("/verif/harness/") || loc.is_empty() {
+                            l.machinery.push(format!("harness panic on item {}: {}", i, msg));
+                        } else {
+                            let site = loc.clone();
+                            l.check(UNANTICIPATED_PANIC, &site, false, || json!({"unanticipated_panic": msg.clone(), "sweep_item": i}), || msg.clone());
+                        }
                     }
                 }
                 results.lock().unwrap()[c] = Some((l, out));
